@@ -822,6 +822,53 @@ def corr_snd_stacks(ck: Ck) -> None:
 
 
 
+def snd_line_census(ck: Ck) -> None:
+    """The other direction of the soundscript line census (Gen/TextFields_gen.v snd_lines, theorems c20_text_line*): every physical
+    line Sound.export really writes is an instance of a template of the census.  The children of the operator stacks are written by
+    Keyvalues.serialise (lines under three tabs that start with a quote or a fourth tab) and are not part of the census."""
+    import re
+    tr = ck.extra.get('translated', {}).get('TextFields_gen', {})
+    tpls = tr.get('sndscript_lines')
+    if not tpls:
+        ck.obligation('correspondence:sndscript-line-census', False, 'no line census')
+        ck.tie_broken.append('correspondence soundscript line census: no census')
+        return
+    text = ''
+    pats: set[str] = set()
+    for tpl in tpls:                       # a template that stops in the middle of a line continues with the next write
+        text += ''.join(p[1] if p[0] == 'lit' else '\0' for p in tpl)
+        if text.endswith('\n'):
+            for phys in text.split('\n')[:-1]:
+                pats.add('(.*)'.join(re.escape(x) for x in phys.split('\0')))
+            text = ''
+    regs = [re.compile(p, re.S) for p in sorted(pats)]
+    fmt = U.FORMATS['sndscript']
+    n = bud(ck, ('sndscript',), 60, 600)
+    bad: list[str] = []
+    lines = 0
+    for _ in range(n):
+        spec = fmt.gen(ck.rng)
+        try:
+            out = fmt.write(fmt.build(spec))
+        except Exception as e:
+            bad.append(f'export raised {e!r}'[:200])
+            continue
+        ck.count('snd_line_census_files')
+        for phys in out.split('\n')[:-1]:
+            if phys.startswith('\t\t\t"') or phys.startswith('\t\t\t\t'):
+                continue
+            lines += 1
+            if not any(r.fullmatch(phys) for r in regs):
+                bad.append(phys[:200])
+    ck.count('snd_line_census_lines', lines)
+    ck.obligation('correspondence:sndscript-line-census', not bad and lines > 0,
+                  f'{lines} physical lines of {n} exported soundscript files (stack children excluded): each is an instance of one of the '
+                  f'{len(regs)} template lines regenerated from Sound.export: {len(bad)} are not')
+    if bad or not lines:
+        ck.tie_broken.append('correspondence soundscript line census (Gen/TextFields_gen.v snd_lines vs the lines Sound.export writes)')
+        ck.extra['snd_line_census_unmatched'] = bad[:5]
+
+
 # ================================================================================================ VMT on-demand quoting
 
 def corr_vmt_quote(ck: Ck) -> None:
@@ -1539,7 +1586,9 @@ def run(ck: Ck) -> None:
     if built and ok4:
         launch(corr_snd_stacks(ck))
         launch(corr_vmt_quote(ck))
-    lap('gen-snd-stacks+vmt-quote')
+    if built and ok4:
+        snd_line_census(ck)
+    lap('gen-snd-stacks+vmt-quote+line-census')
     if built and ok5:
         launch(corr_choreo_bin(ck))
     lap('gen-choreo-bin')
@@ -1610,6 +1659,7 @@ def run(ck: Ck) -> None:
             ck.explain('translate:TextFields_gen')
             if pre == 'sndscript:':
                 ck.explain('correspondence:sndscript-stacks')
+                ck.explain('correspondence:sndscript-line-census')
             if pre == 'vmt:':
                 ck.explain('correspondence:vmt-quoting')
     if any(k.startswith('scenes-image:') for k in keys):
